@@ -79,7 +79,8 @@ func (t *PatternType) Default() px.Type {
 
 func (t *PatternType) Equals(o interface{}, g px.Guard) bool {
 	if ot, ok := o.(*PatternType); ok {
-		return len(t.regexps) == len(ot.regexps) && px.IncludesAll(t.regexps, ot.regexps, g)
+		// inclusion in both directions: with a repeated pattern, inclusion one way does not imply the other
+		return len(t.regexps) == len(ot.regexps) && px.IncludesAll(t.regexps, ot.regexps, g) && px.IncludesAll(ot.regexps, t.regexps, g)
 	}
 	return false
 }
